@@ -277,6 +277,9 @@ func cloudQueue(seq []int) {
 }
 
 func enum() {
+	if *vrt.Shard == 0 {
+		checkIdentityCollision()
+	}
 	k := 3
 	if vrt.Thorough() {
 		k = 4
@@ -470,9 +473,16 @@ func main() {
 			}
 			return
 		}
-		var rp struct{ Seq []int }
+		var rp struct {
+			Seq       []int
+			Collision string
+		}
 		vrt.LoadReplay(&rp)
-		checkSeq(rp.Seq)
+		if rp.Collision != "" {
+			checkIdentityCollision()
+		} else {
+			checkSeq(rp.Seq)
+		}
 		for _, v := range res.Violations {
 			fmt.Println(v.Key, "\n ", v.Msg)
 		}
